@@ -175,6 +175,9 @@ func (p hprog) taskNames() []string {
 	return n
 }
 
+// dirVal: the path is a directory (patterns match directories too; they are not inputs).
+const dirVal = "<dir>"
+
 func lit(path string) hfile { return hfile{Path: path, Vals: []string{"v0", "v1"}} }
 func globf(path string, vals ...string) hfile {
 	return hfile{Path: path, Vals: vals}
@@ -246,6 +249,8 @@ func histCatalogue() []hprog {
 		// a generator that leaves the modification time of the directory as it found it
 		{Name: "P28-generator-keeps-directory-time", Tasks: []htask{{Name: "ta", EffFile: 2, EffVal: "gen", KeepMtime: true}, {Name: "tb", Globs: []string{"*.src"}}},
 			Files: []hfile{globf("x.src", "v0"), globf("g.src", absent, "gen")}},
+		// a pattern that at times matches only a directory, at times nothing, at times a file
+		{Name: "P29-pattern-matching-a-directory", Tasks: []htask{{Name: "ta", Globs: []string{"out/*"}}}, Files: []hfile{globf("out/sub", absent, dirVal), globf("out/x", absent, "v0")}},
 		{Name: "P8-three-tasks", Tasks: []htask{{Name: "ta", Lits: []string{"a.txt"}}, {Name: "tb", Lits: []string{"b.txt"}}, {Name: "tc", Deps: []string{"ta", "tb"}}}, Files: []hfile{lit("a.txt"), lit("b.txt")}},
 	}
 }
@@ -507,13 +512,14 @@ func inputsNow(p hprog, t htask, d hdisk) string {
 	var items []string
 	present := map[string]string{}
 	for i, f := range p.Files {
-		if d.Files[i] != absent {
+		// a directory that a name or a pattern matches is not an input: only regular files are hashed
+		if d.Files[i] != absent && d.Files[i] != dirVal {
 			present[f.Path] = d.Files[i]
 		}
 	}
 	for _, l := range p.Links {
 		// a dependency that is a symbolic link names the file it points to
-		if d.Files[l.File] != absent {
+		if d.Files[l.File] != absent && d.Files[l.File] != dirVal {
 			present[l.Path] = d.Files[l.File]
 		}
 	}
@@ -558,6 +564,10 @@ func materialise(sb *proj.Sandbox, p hprog, d hdisk) {
 		}
 		full := filepath.Join(sb.Dir, f.Path)
 		os.MkdirAll(filepath.Dir(full), 0o755)
+		if d.Files[i] == dirVal {
+			os.MkdirAll(full, 0o755)
+			continue
+		}
 		os.WriteFile(full, []byte(d.Files[i]+"\n"), 0o644)
 	}
 	for _, l := range p.Links {
@@ -586,7 +596,9 @@ func readDisk(sb *proj.Sandbox, p hprog, before hdisk) hdisk {
 	d := hdisk{Files: make([]string, len(p.Files)), Var: before.Var}
 	for i, f := range p.Files {
 		b, err := os.ReadFile(filepath.Join(sb.Dir, f.Path))
-		if err != nil {
+		if st, serr := os.Stat(filepath.Join(sb.Dir, f.Path)); serr == nil && st.IsDir() {
+			d.Files[i] = dirVal
+		} else if err != nil {
 			d.Files[i] = absent
 		} else {
 			d.Files[i] = strings.TrimSuffix(string(b), "\n")
